@@ -411,6 +411,23 @@ let cmd_mregion args =
      | None -> emit "PANIC")
   | _ -> failwith "region: bad arguments"
 
+(* mcli <opts_ok> <help> <version> <check> <hcl U|R|A> <yo M|U|L> <sim C|A> <free arg hex>... *)
+let cmd_mcli args =
+  match args with
+  | ok :: h :: v :: c :: hcl :: yo :: sim :: free ->
+    let inv = { i_opts_ok = ok = "1"; i_help = h = "1"; i_version = v = "1"; i_check = c = "1";
+                i_free = List.map (fun x -> cstr (hex_decode x)) free;
+                i_hcl = (match hcl with "U" -> HclUnreadable | "R" -> HclRejected | _ -> HclAccepted);
+                i_yo = (match yo with "M" -> YoMissing | "U" -> YoUnloadable | _ -> YoLoadable);
+                i_sim = (match sim with "A" -> SimAborts | _ -> SimCompletes) } in
+    let (code, w) = main_model inv in
+    emit (Printf.sprintf "exit %d %s" (int_of_n code)
+            (match w with
+             | PrintedUsage -> "usage" | PrintedVersion -> "version" | SyntaxOK -> "syntaxok"
+             | FinalState t -> "final " ^ Stdlib.string_of_int (int_of_n t)
+             | Message m -> "message " ^ ostr m))
+  | _ -> failwith "mcli: bad arguments"
+
 let dispatch cmd args =
   match cmd with
   | "dis" -> cmd_dis args
@@ -421,6 +438,7 @@ let dispatch cmd args =
   | "mgraph" -> cmd_mgraph args
   | "yo" -> cmd_myo args
   | "mbuild" -> cmd_mbuild args
+  | "mcli" -> cmd_mcli args
   | "region" -> cmd_mregion args
   | "mvalid" -> cmd_mvalid args
   | _ -> emit ("unknown command " ^ cmd)
